@@ -851,3 +851,28 @@ silent("c13_flag_from_member_type_kept", "C13", [(TYPING, "    return FieldTypeI
     collection_flag = is_collection(annotation)
     return FieldTypeInfo(collection_flag, resolved_type=annotation)
 ''')])
+
+# ---------------------------------------------------------------- user text parsed as a format template (C17-s22)
+_C17_OLD_REPORT = '''            raise ASTPatternDefinitionError(
+                "Incorrect pattern definitions:\\n"
+                + "\\n".join(
+                    [
+                        f"Pattern '{pattern_name}': {pattern_def}"
+                        for pattern_name, pattern_def in incorrect_patterns
+                    ]
+                )
+            )'''
+fire("c17_report_parsed_as_template", "C17", [(PATTERN, _C17_OLD_REPORT, '''            report = "Incorrect pattern definitions ({bad}):\\n" + "\\n".join(
+                f"Pattern '{pattern_name}': {msg}" for pattern_name, msg in incorrect_patterns
+            )
+            raise ASTPatternDefinitionError(report.format(bad=len(incorrect_patterns)))''')], "R-EXC-ESCAPE")
+silent("c17_literal_header_template", "C17", [(PATTERN, _C17_OLD_REPORT, '''            header = "Incorrect pattern definitions:{}".format("\\n")
+            raise ASTPatternDefinitionError(
+                header
+                + "\\n".join(
+                    [
+                        f"Pattern '{pattern_name}': {pattern_def}"
+                        for pattern_name, pattern_def in incorrect_patterns
+                    ]
+                )
+            )''')])
